@@ -433,7 +433,7 @@ pub fn traverse(m: &Model, ctx: &mut Ctx, rule: &str) {
     let ev = Evaluator { consts: &consts, call_hook: &hook, inline: None };
     const KINDS: [&str; 5] = ["Sequence", "Set", "Choice", "SequenceOf", "SetOf"];
     let mut seen = 0;
-    for f in m.fns.iter().filter(|f| f.krate == "rasn-compiler" && f.self_ty.as_deref() == Some("ASN1Type") && f.module.starts_with("validator")) {
+    for f in m.fns.iter().filter(|f| f.krate == "rasn-compiler" && f.self_ty.as_deref() == Some("ASN1Type")) {
         let Some(mt) = model::matches_in(&f.block).into_iter().find(|mt| { let e = tok(&mt.expr); e == "self" || e == "*self" || e == "&self" }) else { continue };
         let call = format!("{}(", f.name);
         let mut covered: Vec<&str> = vec![];
@@ -492,7 +492,8 @@ pub fn select(m: &Model, ctx: &mut Ctx, rule: &str) {
     let choice = {
         let mut c = Map::new();
         c.insert("options".to_string(), Val::List(vec![option("a", ty("Integer")), option("b", ty("Boolean"))]));
-        c.insert("extensible".to_string(), Val::none());
+        // `b` is an extension addition: X.680 clause 30 selects among *all* alternatives (only COMPONENTS OF stops at the marker)
+        c.insert("extensible".to_string(), Val::some(Val::int(1)));
         c.insert("constraints".to_string(), Val::List(vec![]));
         Val::Ctor("Choice".into(), vec![Val::Ctor("Choice".into(), vec![], c)], Map::new())
     };
@@ -531,7 +532,7 @@ pub fn select(m: &Model, ctx: &mut Ctx, rule: &str) {
                 let got = match &after { Some(Val::Ctor(k, _, _)) => k.clone(), o => format!("{:?}", o.as_ref().map(|x| x.show())) };
                 if got != w {
                     ctx.violate(rule, "selected-alternative", &f.file, f.line,
-                        &format!("`{} < C` with C ::= CHOICE {{ a INTEGER, b BOOLEAN }} is rewritten to a {} type; a selection type denotes the type of the selected alternative ({})", sel, got, w));
+                        &format!("`{} < C` with C ::= CHOICE {{ a INTEGER, ..., b BOOLEAN }} is rewritten to a {} type; a selection type denotes the type of the selected alternative ({}), before or after the extension marker", sel, got, w));
                 }
             }
             (Ok(Val::Ctor(ok, _, _)), None) if ok == "Ok" => {
@@ -539,7 +540,7 @@ pub fn select(m: &Model, ctx: &mut Ctx, rule: &str) {
                     &format!("`{} < C` names no alternative of C and is accepted (rewritten to {:?})", sel, after.map(|x| x.show())));
             }
             (Ok(Val::Ctor(e, _, _)), None) if e == "Err" => {}
-            (Ok(o), _) => ctx.violate(rule, "selected-alternative", &f.file, f.line, &format!("`{} < C`: link_choice_selection_type returns {}", sel, o.show())),
+            (Ok(o), _) => ctx.violate(rule, "selected-alternative", &f.file, f.line, &format!("`{} < C` with C ::= CHOICE {{ a INTEGER, ..., b BOOLEAN }}: link_choice_selection_type returns {} — every alternative, before or after the extension marker, can be selected", sel, o.show())),
             (Err(e), _) => ctx.fail_closed(rule, &format!("[{} < C]: {}", sel, e)),
         }
     }
